@@ -14,7 +14,11 @@ CONSTANTS GenWhat,     \* which families of cases to print
 
 Case(k, pop, pol, allow, sc, ops) ==
   [kind |-> k, imm |-> FALSE, pop |-> pop, pol |-> pol, allow |-> allow,
-   scope |-> [unl |-> sc.unl, triples |-> sc.set], ops |-> ops]
+   scope |-> [unl |-> sc.unl, triples |-> sc.set], ops |-> ops, failafter |-> -1, failwith |-> ""]
+\* the same with a backend whose repository listing fails after k items, handing the name
+\* `with` over together with the error
+CaseF(k, pop, pol, allow, sc, ops, after, with) ==
+  [Case(k, pop, pol, allow, sc, ops) EXCEPT !.failafter = after, !.failwith = with]
 AllOk == TableOf(<<>>)
 Vals == {PolOk} \cup ErrIds
 \* every method on r1, mounts between r1 and r2, under every assignment of the entries involved
@@ -38,6 +42,17 @@ SelectListCases ==
   UNION {{Case("select", pop, SelPol(allow, Repos), allow, NoScope, ListSeq) :
              allow \in {a \in SUBSET (Repos \cup {Star}) : Star \in a => (GenFull \/ pop = Repos)}} :
            pop \in SUBSET Repos}
+\* failing listings: all repositories populated, every Read-allowed subset, failure after 0..3
+\* items, the name delivered with the error being the next repository (or none)
+Nth(k) == CHOOSE x \in Repos : Pos.r[x] = 2 * k
+ListSeq2 == <<[op |-> "ListRepos", startpos |-> 0], [op |-> "ListRepos", startpos |-> 3]>>
+CheckerFailCases ==
+  UNION {{CaseF("checker", Repos, ListTable(allowR, PolOk, CHOOSE e \in ErrIds : TRUE), {}, NoScope, ListSeq2, k, w) :
+             w \in {Nth(k + 1)} \cup (IF GenFull THEN {"", Nth(1)} ELSE {})} :
+           allowR \in SUBSET Repos, k \in 0..3}
+SelectFailCases ==
+  {CaseF("select", Repos, SelPol(allow, Repos), allow, NoScope, ListSeq2, k, Nth(k + 1)) :
+     allow \in SUBSET Repos, k \in 0..3}
 SelectOpsCases ==
   {Case("select", {"r1", "r2", "r3"}, SelPol(allow, Repos), allow, NoScope, CheckerOpsSeq) : allow \in SUBSET {"r1", "r2"}}
 \* Sub: every enumerated caller string x every method (and mounts against a good name)
@@ -53,6 +68,7 @@ Cases == (IF "checkerops" \in GenWhat THEN CheckerOpsCases ELSE {})
     \cup (IF "checkerlist" \in GenWhat THEN CheckerListCases ELSE {})
     \cup (IF "selectlist" \in GenWhat THEN SelectListCases ELSE {})
     \cup (IF "selectops" \in GenWhat THEN SelectOpsCases ELSE {})
+    \cup (IF "listfail" \in GenWhat THEN CheckerFailCases \cup SelectFailCases ELSE {})
     \cup (IF "subnames" \in GenWhat THEN SubNameCases ELSE {})
     \cup (IF "sublist" \in GenWhat THEN SubListCases ELSE {})
 ASSUME \A c \in Cases : PrintT(<<"MBT", ToJson(c)>>)
